@@ -392,7 +392,7 @@ eng_show = showeng.eng_show
 eng_rename = renameeng.eng_rename
 
 WF_NOTE = "the well-formedness of every accepted provider map (wfb) is proved (C05_accepted_maps_well_formed); the correspondence run still evaluates it per accepted case as a redundant check"
-SYNTH_NOTE = "explicit loop bounds of the model (acyc_fuel, solve_fuel) are validated by the correspondence run; the theorems hold for whatever fuel completes the run"
+SYNTH_NOTE = "explicit loop bounds of the model: acyc_fuel and solve_fuel are proved sufficient for every accepted map (C07_linear_bound, C07_planner_linear_bound); on rejected maps the planner is not run by Wire"
 PROPS = {
     "C01": {"level_text": "Machine-checked proof in Coq 8.16.1 over an executable model tied to the code by a per-run correspondence; the emission model and the name-freshness theorems are proved; that the emitted package compiles under Go's type checker is established by compiling every accepted program of the corpus (partial).", "theorems": ["C01_one_implementation", "C14_names_distinct", "C14_invented_names_fresh"], "engines": [eng_prog, eng_zerovalue, eng_multi, eng_layouts],
             "assumptions": ["partial: Go's full type checker and types.TypeString are not modelled; that the package compiles is established by go build on every accepted program"]},
@@ -403,7 +403,7 @@ PROPS = {
             "assumptions": ["Go semantics of the emitted fragment is Exec.v's reading of the Go spec, validated by runtime traces"]},
     "C05": {"theorems": ["C05_never_picks", "C05_closure_spelled_out", "C05_conflict_is_real", "C05_conflict_is_reported", "C05_accepted_maps_well_formed"], "engines": [eng_synth, eng_prog, eng_multi], "assumptions": [SYNTH_NOTE]},
     "C06": {"theorems": ["C06_missing_accepted", "C06_rejected_names_missing_accepted", "C06_accepted_is_complete_accepted"], "engines": [eng_synth, eng_prog, eng_multi, eng_forms], "assumptions": [SYNTH_NOTE, WF_NOTE]},
-    "C07": {"theorems": ["C07_cycles_detected", "C07_only_cycle_errors", "C07_terminates", "C07_machine_refines_dfs", "C07_solve_terminates", "C07_checker_graph_covers_planner_graph", "C07_accepted_sets_acyclic_for_planner", "C07_linear_bound", "C07_cycles_detected_total"],
+    "C07": {"theorems": ["C07_cycles_detected", "C07_only_cycle_errors", "C07_terminates", "C07_machine_refines_dfs", "C07_solve_terminates", "C07_checker_graph_covers_planner_graph", "C07_accepted_sets_acyclic_for_planner", "C07_linear_bound", "C07_cycles_detected_total", "C07_planner_linear_bound"],
             "engines": [eng_synth, eng_prog],
             "assumptions": [SYNTH_NOTE, "wall-clock behaviour is runtime, sampled on lattices/chains only"]},
     "C08": {"theorems": ["C08_used_exactly", "C08_unused_reported_exactly", "C08_called_is_used", "C08_used_have_source"], "engines": [eng_synth, eng_prog, eng_multi], "assumptions": [SYNTH_NOTE]},
